@@ -82,10 +82,31 @@ def run(tier, seed, want_first=False, max_idx=40):
 
     rnd = random.Random(seed)
     sl = grammar.Slice(tier)
+    evals = 0
+    distinct = set()
+    violations = []
+    samples = []
+    # twins: classes of equal name (C type names are class names) and different layout, built one after the other in this process --
+    # each build must address its own classes' layout, whatever was generated before it
+    tw = grammar.uniq("Tw")
+    twinsA = [X.Float64[3, 4], X.Int32[2, 3, 2], grammar.mkstruct(f"{tw}P", {"x": X.Int64, "y": X.Float64, "s": X.Float64[:]}),
+              grammar.mkstruct(f"{tw}H", {"n": X.Int64, "m": X.Int16[3, 2]})]
+    twinsB = [X.Float64[3:1, 4:0], X.Int32[2:1, 3:2, 2:0], grammar.mkstruct(f"{tw}P", {"k": X.Int8, "x": X.Int64, "s": X.Float64[:], "y": X.Float64, "t": X.Int32[:]}),
+              grammar.mkstruct(f"{tw}H", {"n": X.Int64, "m": X.Int16[3:0, 2:1]})]
+    for roots in (sl.roots, twinsA, twinsB):
+        r = _one_build(X, capi, default_conf, sl, roots, rnd, tier, want_first, max_idx, distinct, violations, samples)
+        evals += r
+        if violations and want_first:
+            break
+    return evals, distinct, violations, samples
+
+
+def _one_build(X, capi, default_conf, sl, roots, rnd, tier, want_first, max_idx, distinct, violations, samples):
     ctx = X.ContextCpu()
     kernels = {}
     per_cls = []
-    for cls in sl.roots:
+    evals = 0
+    for cls in roots:
         paths = cls._gen_data_paths()
         plist = []
         for path in paths:
@@ -95,11 +116,7 @@ def run(tier, seed, want_first=False, max_idx=40):
                     kernels[k.c_name] = k
             plist.append((path, ms))
         per_cls.append((cls, plist))
-    ctx.add_kernels(kernels=kernels, extra_classes=sl.roots)
-    evals = 0
-    distinct = set()
-    violations = []
-    samples = []
+    ctx.add_kernels(kernels=kernels, extra_classes=roots)
 
     def bad(cls, path, what, idx, got, want, text):
         v = {"class": cls.__name__, "path": path_str(X, path), "accessor": what, "indices": list(idx), "c_result": repr(got),
@@ -179,11 +196,11 @@ def run(tier, seed, want_first=False, max_idx=40):
                         except Exception as e:  # noqa
                             bad(cls, path, name, idx, f"raised {type(e).__name__}: {e}", "no exception", src)
                         if violations and want_first:
-                            return evals, distinct, violations, samples
+                            return evals
                     if len(samples) < 3 and n_idx == 1 and len(path) > 3:
                         samples.append({"class": cls.__name__, "path": path_str(X, path), "indices": list(idx),
                                         "python_offset": w["offset"] - obj._offset, "object_offset_in_buffer": obj._offset})
-    return evals, distinct, violations, samples
+    return evals
 
 
 def same_scalar(a, b):
